@@ -211,7 +211,13 @@ func enumerate(thorough bool) []Config {
 				for _, d := range []string{"empty", "sentinel"} {
 					progs := []string{"ok-small"}
 					if thorough {
-						progs = []string{"ok-small", "ok-import", "type-error"}
+						progs = []string{"ok-small", "type-error"}
+						// the program importing std/strings costs ~0.1 s per transpilation: representative spellings only
+						for _, rs := range spellings(len(ts)+2, false) {
+							if rs == sp {
+								progs = append(progs, "ok-import")
+							}
+						}
 					}
 					for _, p := range progs {
 						out = append(out, Config{Targets: ts, Order: ord, Spell: sp, File: "p.tsh", Prog: p, Dir: d, Form: "abs"})
@@ -744,10 +750,18 @@ func replay(res result) func() findings.Replay {
 			e := strings.TrimPrefix(res.C.Fault, "outfile-is-dir:")
 			sb.WriteString("rm -f \"$OUT/\"" + shQuote(base+"."+e) + "; mkdir \"$OUT/\"" + shQuote(base+"."+e) + "\n")
 		}
+		sb.WriteString("cp -r \"$OUT\" \"$T/out.before\"\n")
 		sb.WriteString("( cd \"$T/cwd\" && \"$T/tsh\" " + strings.Join(q, " ") + " ) 2> \"$T/stderr.txt\"; st=$?\n")
-		sb.WriteString("echo \"exit status: $st (the property expects: " + res.Expect + ")\"; head -3 \"$T/stderr.txt\"\necho \"output directory now:\"; ls -la \"$OUT\"\n")
-		sb.WriteString("if [ -d expected ]; then for f in expected/*; do b=$(basename \"$f\"); echo \"--- diff library-output $b / written file\"; diff \"$f\" \"$OUT/$b\" && echo same; done; fi\n")
+		sb.WriteString("echo \"exit status: $st (the property expects: " + res.Expect + ")\"; head -3 \"$T/stderr.txt\"\necho \"output directory now:\"; ls -la \"$OUT\"\nbad=0\n")
+		if res.Expect == "success" {
+			sb.WriteString("[ $st -ne 0 ] && bad=1\n")
+			sb.WriteString("for f in expected/*; do b=$(basename \"$f\"); echo \"--- diff library-output $b / written file\"; diff \"$f\" \"$OUT/$b\" && echo same || bad=1; done\n")
+		} else {
+			sb.WriteString("[ $st -eq 0 ] && bad=1\n")
+			sb.WriteString("echo \"--- changes in the output directory (none allowed)\"; diff -r \"$T/out.before\" \"$OUT\" || bad=1\n")
+		}
 		sb.WriteString("echo \"observed when recorded: " + res.Symptoms + "\"\n")
+		sb.WriteString("if [ $bad = 0 ]; then echo \"REPLAY: no longer reproduces\"; exit 0; else echo \"REPLAY: reproduced\"; exit 1; fi\n")
 		return findings.Replay{Files: files, Script: sb.String()}
 	}
 }
